@@ -27,7 +27,8 @@ ASSUMPTIONS = [
     'Python == / hash of the argument values is an equivalence relation; the harness computes the class of every '
     'value it uses (1, 1.0 and True share one) and hands the classes to the model',
     'the supplied MutableMapping behaves like a mapping keyed by == / hash (dict, LRU, scripted eviction)',
-    'sequential use (one call at a time); concurrency is C01',
+    'sequential use (one call at a time) for the model comparison; concurrency is C01 - but that the supplied '
+    'mapping is the only store is also judged, by a monitor, after a prelude of concurrent waiters and cancellations',
 ]
 RULE = ('all ordered pairs of call signatures from a pool (positional tuples of length 0..3 over value classes with '
         'equal-but-distinct representatives, keyword dicts of 0..3 names in every insertion order) as call s1, call s2, '
@@ -300,9 +301,119 @@ def unhashable(out):
     out.count('unhashable-probes', 6)
 
 
+# ------------------------------------------------------------------ the mapping is the only store, also after concurrent use
+def gen_conc(rng):
+    """One key: a computing call with 0..3 concurrent waiters of which some are cancelled while they wait (or
+    after the value arrived), the computation succeeding or failing; afterwards evictions and calls in any order."""
+    nw = rng.randint(0, 3)
+    return {'conc': True, 'dur': rng.choice([1, 4]), 'fail_first': rng.random() < 0.25,
+            'waiters': [{'start': rng.choice([0, 1, 2]), 'cancel_at': rng.choice([None, None, 1, 2, 3, 9])}
+                        for _ in range(nw)],
+            'tail': [rng.choice(['call', 'call', 'evict', 'clear']) for _ in range(rng.randint(2, 7))],
+            'lru': rng.random() < 0.3}
+
+
+def run_conc(case):
+    """Virtual-time run on one loop. Returns (log of tail steps, violations)."""
+    from aiuti.asyncio import threadsafe_async_cache
+    from ..core.vtime import VLoop, TICK
+    store = collections.OrderedDict()
+    inv = []
+
+    async def f(x):
+        n = len(inv)
+        inv.append(n)
+        await asyncio.sleep(case['dur'] * TICK)
+        if case['fail_first'] and n == 0:
+            raise RuntimeError('scripted failure')
+        return ('value', n)
+    g = threadsafe_async_cache(f, cache=store)
+    loop = VLoop()
+    asyncio.set_event_loop(loop)
+    bad = []
+    log = []
+
+    async def waiter(w):
+        await asyncio.sleep(w['start'] * TICK)
+        try:
+            return await g(7)
+        except RuntimeError:
+            return 'failed'
+
+    async def main():
+        first = asyncio.ensure_future(waiter({'start': 0}))
+        ws = []
+        for w in case['waiters']:
+            t = asyncio.ensure_future(waiter(w))
+            ws.append(t)
+            if w['cancel_at'] is not None:
+                loop.call_later(w['cancel_at'] * TICK, t.cancel)
+        await asyncio.wait([first] + ws)
+        await asyncio.sleep(20 * TICK)
+        # from here on sequential: the supplied mapping must be the only store
+        for step in case['tail']:
+            if step == 'evict':
+                for k in list(store):
+                    del store[k]
+                    break
+                log.append('evict')
+            elif step == 'clear':
+                store.clear()
+                log.append('clear')
+            else:
+                n0 = len(inv)
+                had = len(store) > 0
+                try:
+                    r = await g(7)
+                except RuntimeError:
+                    r = 'failed'
+                dn = len(inv) - n0
+                log.append(('call', had, dn, r))
+                if had and dn != 0:
+                    bad.append(f'the mapping held the entry, yet the call invoked the function {dn} time(s)')
+                if not had and dn != 1:
+                    bad.append(f'the entry was not in the supplied mapping (evicted / never stored), yet the call '
+                               f'invoked the function {dn} time(s) instead of exactly once and returned {r!r}')
+                if not had and dn == 1 and r != 'failed' and r != ('value', n0):
+                    bad.append(f'after an eviction the call returned {r!r}, not the value of its own recomputation')
+                if r != 'failed' and len(store) != 1:
+                    bad.append(f'after a successful call the supplied mapping holds {len(store)} entries')
+    try:
+        loop.run_until_complete(main())
+    finally:
+        loop.close()
+        asyncio.set_event_loop(None)
+    return log, bad
+
+
+def _chunk_conc(payload):
+    logging.disable(logging.CRITICAL)
+    seed, count = payload
+    out = Outcome()
+    for i in range(count):
+        rng = rng_for(seed, 'c14conc', i)
+        case = gen_conc(rng)
+        mark(case)
+        out.evaluations += 1
+        log, bad = run_conc(case)
+        out.traces_validated += 1
+        out.fingerprints.add(fingerprint(case))
+        out.count('concurrent-prelude:waiters=%d' % len(case['waiters']))
+        for b in bad[:1]:
+            out.concrete.append({'case': case, 'what': b, 'observed': log, 'signature': {'kind': 'second-store'}})
+    return out
+
+
+def _dispatch(payload):
+    if payload[0] == 'conc':
+        return _chunk_conc(payload[1:])
+    return _chunk(payload)
+
+
 def run(ctx):
     nparts = 4 if ctx.quick else ctx.workers
-    return run_chunks(_chunk, [(ctx.quick, ctx.seed, k, nparts) for k in range(nparts)], nparts,
+    return run_chunks(_dispatch, [(ctx.quick, ctx.seed, k, nparts) for k in range(nparts)] +
+                      [('conc', ctx.seed * 100 + k, 150 if ctx.quick else 5000) for k in range(nparts)], nparts,
                       limit_s=240 if ctx.quick else 2400)
 
 
@@ -312,6 +423,9 @@ def search(ctx, outcome):
 
 def replay(ctx, payload):
     case = payload.get('case') or (payload.get('first_differing_case') or {}).get('case')
+    if case.get('conc'):
+        log, bad = run_conc(case)
+        return {'case': case, 'tail': log, 'monitor': bad, 'fails': bool(bad)}
 
     def fix(s):
         return ([tuple(a) for a in s[0]], [(n, tuple(cv)) for n, cv in s[1]])
